@@ -41,8 +41,12 @@ func runParallel(fm *Frame, functions ...Callable) error {
 	for i, function := range functions {
 		go func(fm2 *Frame, function Callable, pexc *Exception) {
 			err := function.Call(fm2, NoArgs, NoOpts)
-			if err != nil {
-				*pexc = err.(Exception)
+			if exc, ok := err.(Exception); ok {
+				*pexc = exc
+			} else if err != nil {
+				// For example an arity mismatch, which is not raised from
+				// inside the function.
+				*pexc = &exception{err, fm2.traceback}
 			}
 			wg.Done()
 		}(fm.Fork(), function, &exceptions[i])
